@@ -41,8 +41,19 @@ def seeds_table():
         out.append(f"| `{name}` | {m['property']} | {esc(m['needs_to_manifest'])[:300]} | {', '.join(m.get('caught_by') or []) or '**not reported**'} | {esc(m.get('note',''))[:300]} |")
     return "\n".join(out)
 
+def benign_table():
+    out = ["| refactoring | files touched | checks that raised an alarm when it was first run | now |", "|---|---|---|---|"]
+    def keyf(d):
+        n = os.path.basename(os.path.dirname(d))
+        return int(re.sub(r'\D', '', n) or 0)
+    for d in sorted(glob.glob('/verif/benign/*/meta.json'), key=keyf):
+        m = json.load(open(d)); name = os.path.basename(os.path.dirname(d))
+        files = sorted(set(re.findall(r'^\+\+\+ b/(\S+)', open(os.path.dirname(d) + '/patch.diff').read(), re.M)))
+        out.append(f"| `{name}` | {', '.join(files)} | {', '.join(m.get('alarms_when_first_run') or []) or 'none'} | silent |")
+    return "\n".join(out)
+
 s = open('/verif/DESIGN.md').read()
-for name, fn in (("fixed", fixed_table), ("known", known_table), ("seeds", seeds_table)):
+for name, fn in (("fixed", fixed_table), ("known", known_table), ("seeds", seeds_table), ("benign", benign_table)):
     b, e = f"<!-- BEGIN:{name} -->", f"<!-- END:{name} -->"
     if b in s and e in s:
         i, j = s.index(b) + len(b), s.index(e)
